@@ -273,23 +273,23 @@ func run(ctx *core.Ctx) error {
 			continue
 		}
 		nW++
-		nv := 4
-		for v := 0; v < nv; v++ {
+		for v := 0; v < 4; v++ {
 			if w.Walker == "length" && v&1 == 0 && hasCompressed(w) {
 				continue // same file as v|1
 			}
-			// the whole public walk on one rendering (quick; picked by index and seed) or on all
-			// renderings (thorough) of the N = 2 models and on one rendering of the N = 3 models;
-			// the guarded call alone on the others
-			full := v == (i+int(ctx.Seed))%4
+			// The guarded call runs on every rendering of every wiring.  The whole
+			// public walk: quick - one rendering (picked by index and seed) of every
+			// N = 2 wiring; thorough - every rendering of the N = 2 wirings and one
+			// rendering of every 16th N = 3 wiring.
+			pickV := (i + int(ctx.Seed)) % 4
 			if w.Walker == "length" && hasCompressed(w) {
-				full = v|1 == (i+int(ctx.Seed))%4|1
+				pickV |= 1
 			}
-			if ctx.Thorough() && w.N <= 2 {
-				full = true
+			full := v == pickV && w.N <= 2
+			if ctx.Thorough() {
+				full = w.N <= 2 || v == pickV && (i/4+int(ctx.Seed))%16 == 0
 			}
-			probeOnly := !full
-			pl.add(&Req{Wiring: w, Variant: v, Probe: probeOnly}, "wiring:"+w.Walker, w.key()+fmt.Sprintf("/v%d", v), nil)
+			pl.add(&Req{Wiring: w, Variant: v, Probe: !full}, "wiring:"+w.Walker, w.key()+fmt.Sprintf("/v%d", v), nil)
 		}
 	}
 	ctx.Logf("model wirings: %d terminal states generated by TLC, %d taken, %d files", len(wirings), nW, len(pl.reqs))
@@ -361,12 +361,35 @@ func run(ctx *core.Ctx) error {
 	results := map[string]*Result{}
 	var recs []Rec
 	t0 := time.Now()
+	// circuit breaker: once a class of cases has killed or hung a worker six
+	// times the verdict on it is settled; its remaining cases are left out
+	// (each would cost a watchdog period) and counted in the evidence
+	const tripAfter = 6
+	deaths := map[string]int{}
+	skippedByClass := map[string]int{}
 	err = pool.Run(pl.reqs, parallelism(), func(r *Result) {
 		results[r.Req.ID] = r
 		recs = append(recs, r.Recs...)
+		for _, rec := range r.Recs {
+			if rec.Outcome == "hang" || rec.Outcome == "fatal" {
+				deaths[pl.info[r.Req.ID].class]++
+				break
+			}
+		}
+	}, func(r *Req) bool {
+		cls := pl.info[r.ID].class
+		if deaths[cls] >= tripAfter {
+			skippedByClass[cls]++
+			return true
+		}
+		return false
 	})
 	if err != nil {
 		return err
+	}
+	if len(skippedByClass) > 0 {
+		ctx.Ev.Set("cases_left_out_after_repeated_worker_deaths", skippedByClass)
+		ctx.Logf("left out after %d worker deaths of the same class: %v", tripAfter, skippedByClass)
 	}
 	ctx.Logf("executed %d cases on the real code: %d call records, %d worker starts, %.1fs", len(results), len(recs), pool.restarts, time.Since(t0).Seconds())
 	for id, r := range results {
